@@ -172,7 +172,7 @@ type simWriter struct {
 
 func newSimWriter(plan WriterPlan, yield bool) *simWriter {
 	err := stubError("writer stub", plan.FailAt+plan.ErrVariant)
-	switch (plan.FailAt + plan.ErrVariant) % 17 {
+	switch mix(uint64(plan.FailAt), uint64(plan.ErrVariant)+77) % 17 {
 	// exact sentinels a writer may legitimately return
 	case 11:
 		err = io.EOF
